@@ -2,7 +2,8 @@
    configuration, the event history and what the real monitor was observed to
    do after each event. *)
 From Coq Require Import ZArith NArith List Bool.
-From GoCoap Require Import Base.Cases Gen.MonitorTiming Monitor.Model Monitor.Spec.
+From GoCoap Require Import Base.Bytes Base.Cases Gen.MonitorTiming Gen.StreamConsts Monitor.Model Monitor.Spec Monitor.StreamModel.
+From GoCoap Require Stream.Spec.
 Import ListNotations.
 Open Scope Z_scope.
 
@@ -11,7 +12,17 @@ Inductive case :=
    observations visible through the driver?, observed trace *)
 | Hist (t0 per mx : Z) (k cobs : bool) (trace : list (ev * list obs))
 (* options.WithKeepAlive(maxRetries, timeout): observed Monitor duration, -1 = panic *)
-| Period (timeout mx : Z) (o : Z).
+| Period (timeout mx : Z) (o : Z)
+(* stream connection, byte level: creation time, Monitor.duration, maxRetries,
+   keep-alive wiring?, the session's maxMessageSize, the messages the peer puts on
+   the wire (encoded per RFC 8323 by Stream.Spec.encode_frame; the reads need not
+   consume all of them), and per byte-level event (one socket read of n bytes at
+   t / one tick) what the monitor was observed to do *)
+| SHist (t0 per mx : Z) (k : bool) (max : Z) (frames : list Stream.Spec.frame) (btrace : list (bev * list obs)).
+
+(* a frame of a case file: code, token, options (delta, value), payload = gen_body salt plen *)
+Definition Fr (code : Z) (tok : list Z) (opts : list (Z * list Z)) (salt : Z) (plen : nat) : Stream.Spec.frame :=
+  Stream.Spec.MkFrame code tok opts (gen_body salt plen).
 
 Definition obs_eqb (a b : obs) : bool :=
   match a, b with
@@ -45,6 +56,16 @@ Definition agrees (c : case) : bool :=
   | Hist t0 per mx k cobs tr => agree_from {| period := per; maxr := mx; ka := k |} cobs (init t0) tr
   | Period timeout mx o =>
       match ka_period timeout mx with Some d => d =? o | None => o =? -1 end
+  | SHist t0 per mx k max frames btrace =>
+      (* the hypotheses of the byte-level theorems: good frames, limit within the coder's range *)
+      forallb (fun f => Stream.Spec.frame_wf f && (Stream.Spec.frame_size f <=? max)) frames &&
+      (max <=? messageMaxLen + 65805) &&
+      (* the model (C07's re-framing loop composed with the monitor) does what was observed
+         (Cancel observations are not visible on a connection) *)
+      list_rel (fun m o => obsl_eqb (filter (visible false) m) o)
+        (run_groups {| period := per; maxr := mx; ka := k |} (init t0)
+           (abs max (concat (map Stream.Spec.encode_frame frames)) SM.init (map fst btrace)))
+        (map snd btrace)
   end.
 
 (* Property predicate on the OBSERVED trace, from Spec only: 0 = satisfied,
@@ -54,6 +75,9 @@ Definition pclass (c : case) : N :=
   | Hist t0 per mx k _ tr =>
       judge_all {| p_t0 := t0; p_period := per; p_max := mx; p_ka := k; p_look := lookahead |} [] tr
   | Period _ _ _ => 0%N
+  | SHist t0 per mx k _ frames btrace =>
+      stream_judge {| p_t0 := t0; p_period := per; p_max := mx; p_ka := k; p_look := lookahead |}
+        (map Stream.Spec.frame_size frames) btrace
   end.
 
 Definition mismatches (cs : list case) : list N := bad_indices (fun c => negb (agrees c)) cs.
